@@ -87,9 +87,10 @@ type sqlConn struct {
 }
 
 type sqlExpr struct {
-	kind string // "param", "ident", "str", "int"
+	kind string // "param", "ident", "str", "int", "coalesce"
 	s    string // param name ("$x" or "?N"), identifier, literal
 	n    int64
+	args []sqlExpr // coalesce
 }
 
 type sqlCond struct {
@@ -240,6 +241,29 @@ func (p *sqlParser) expr() (sqlExpr, error) {
 		var n int64
 		fmt.Sscan(t, &n)
 		return sqlExpr{kind: "int", n: n}, nil
+	case strings.ToLower(t) == "coalesce" && p.peek() == "(":
+		// COALESCE(a, b, ...): the first argument that is not NULL (an unbound parameter is NULL)
+		p.next()
+		var args []sqlExpr
+		for {
+			a, err := p.expr()
+			if err != nil {
+				return sqlExpr{}, err
+			}
+			args = append(args, a)
+			if p.peek() == "," {
+				p.next()
+				continue
+			}
+			break
+		}
+		if err := p.expect(")"); err != nil {
+			return sqlExpr{}, err
+		}
+		if len(args) < 2 {
+			return sqlExpr{}, fmt.Errorf("wrong number of arguments to function COALESCE()")
+		}
+		return sqlExpr{kind: "coalesce", args: args}, nil
 	case isIdent(t) && !sqlKeywords[strings.ToLower(t)]:
 		return sqlExpr{kind: "ident", s: strings.ToLower(t)}, nil
 	}
@@ -574,6 +598,17 @@ func (it *Interp) sqlEvalExpr(st *sqlStmt, e sqlExpr, row *sqlRow, t *sqlTable) 
 		}
 		if v, ok := row.vals[e.s]; ok {
 			return v, nil
+		}
+		return sqlVal{k: 'n'}, nil
+	case "coalesce":
+		for _, a := range e.args {
+			v, err := it.sqlEvalExpr(st, a, row, t)
+			if err != nil {
+				return sqlVal{}, err
+			}
+			if v.k != 'n' {
+				return v, nil
+			}
 		}
 		return sqlVal{k: 'n'}, nil
 	}
